@@ -581,7 +581,33 @@ func (fi *FuncInfo) within(n, anc ast.Node) bool {
 
 // isAncestor: anc strictly contains n by position (cheap test).
 func contains(anc, n ast.Node) bool {
-	return anc != nil && n != nil && anc.Pos() <= n.Pos() && n.End() <= anc.End()
+	if anc == nil || n == nil || isNilNode(anc) || isNilNode(n) {
+		return false
+	}
+	// structural, not positional: the normalising pre-pass reorders operands, so
+	// the source positions of a rewritten expression need not nest
+	found := false
+	ast.Inspect(anc, func(m ast.Node) bool {
+		if m == n {
+			found = true
+		}
+		return !found
+	})
+	return found
+}
+
+func isNilNode(n ast.Node) bool {
+	switch x := n.(type) {
+	case *ast.BlockStmt:
+		return x == nil
+	case *ast.IfStmt:
+		return x == nil
+	case ast.Stmt:
+		return x == nil
+	case ast.Expr:
+		return x == nil
+	}
+	return false
 }
 
 // inspect walks root like ast.Inspect and additionally descends into the body
